@@ -85,10 +85,15 @@ theorem total_addAt (f : Nat → Int) (k : Nat) (d : Int) (l : List Nat) (hn : l
       rw [this]
       simp [addAt, ha]; omega
 
+theorem admissible_iff (e : Env) (s : St) (t : Tx) :
+    admissible e s t = true ↔ admissibleSeparate e s t = true ∧ t.feeCap * t.gasLimit + t.value ≤ s.bal t.sender := by
+  simp [admissible, totalCostOk]
+
 /-- the price is non-negative for an admitted transaction -/
 theorem antePrice_nonneg (e : Env) (s : St) (t : Tx) (hb : 0 ≤ e.baseFee) (h : admissible e s t = true) :
     0 ≤ antePrice e t := by
-  simp only [admissible, wellFormed, Bool.and_eq_true, decide_eq_true_eq, Bool.or_eq_true, bne_iff_ne, ne_eq] at h
+  have h := ((admissible_iff e s t).mp h).1
+  simp only [admissibleSeparate, wellFormed, Bool.and_eq_true, decide_eq_true_eq, Bool.or_eq_true, bne_iff_ne, ne_eq] at h
   obtain ⟨⟨⟨⟨⟨⟨⟨⟨_, _⟩, hw⟩, _⟩, hcap⟩, _⟩, _⟩, _⟩, _⟩ := h
   obtain ⟨⟨⟨⟨⟨_, _⟩, _⟩, hfc⟩, _⟩, htip⟩ := hw
   unfold antePrice
